@@ -195,6 +195,15 @@ inline void randomHistory(Ctx& c, long idx)
         {
             e.dev = static_cast<uint16_t>(r.next());
             e.stream = r.byte();
+            if (i >= 1 && idx % 8 == 7)
+            {
+                // the previous endpoint's decimal alias (digits of both ids written one after the other coincide)
+                auto pr = decimalAliasPair(r);
+                eps.back().dev = pr.first.first;
+                eps.back().stream = pr.first.second;
+                e.dev = pr.second.first;
+                e.stream = pr.second.second;
+            }
         }
         e.ver = static_cast<uint8_t>(r.range(1, 3));
         e.mt = r.chance(1, 4) ? wire::MT_STATUS : wire::MT_DATA;
@@ -401,6 +410,12 @@ inline void randomCase(Ctx& c, long idx)
     size_t k = r.range(2, 5);
     std::vector<std::pair<uint16_t, uint8_t>> eps;
     const bool wideIds = r.chance(1, 4);
+    if (wideIds && r.chance(1, 3))
+    {
+        auto pr = decimalAliasPair(r);
+        eps.push_back(pr.first);
+        eps.push_back(pr.second);
+    }
     while (eps.size() < k)
     {
         std::pair<uint16_t, uint8_t> e{pickDevice(r), pickStream(r)};
